@@ -15,7 +15,9 @@ def qs(x):
 
 
 def lp_block(lp):
-    out = ["LP %s %s %d %d" % (lp.get("name", "p"), "MAX" if lp["max"] else "MIN", len(lp["cols"]), len(lp["rows"]))]
+    # lp["order"] in (None, "ROWSFIRST", "MIXED"): order in which the harness builds the problem through the API
+    out = ["LP %s %s %d %d%s" % (lp.get("name", "p"), "MAX" if lp["max"] else "MIN", len(lp["cols"]), len(lp["rows"]),
+                                 " " + lp["order"] if lp.get("order") else "")]
     for (n, o, l, u) in lp["cols"]:
         out.append("COL %s %s %s %s" % (n, qs(o), qs(l), qs(u)))
     for (n, s, r, g, ent) in lp["rows"]:
@@ -146,6 +148,18 @@ def feasible_margin(rng, k, name="fm"):
     return lp
 
 
+def tiny_coef(rng, k, feasible, name="tc"):
+    """x1 + 10^-k x2 >= 1, x1 = 0 (equality row), x2 >= 0: feasible only for x2 >= 10^k;
+    with an upper bound 10^(k-1) on x2 it is infeasible.  Double precision cannot tell."""
+    e = F(1, 10 ** k)
+    up = INF if feasible else F(10 ** (k - 1))
+    cols = [(F(rng.randint(-1, 1)), 0, INF), (F(rng.randint(0, 2)), 0, up)]
+    rows = [("G", F(1), F(0), [(0, F(1)), (1, e)]), ("E", F(0), F(0), [(0, F(1))])]
+    if rng.random() < 0.5:
+        rows.append(("L", F(rng.randint(3, 9)), F(0), [(0, F(1))]))
+    return mk(name, False, cols, rows)
+
+
 def face_only(rng, name="fo"):
     n = rng.randint(2, 4)
     ent = [(j, F(1)) for j in range(n)]
@@ -212,6 +226,16 @@ def small_exhaustive(m, n, vals=(-1, 0, 1, 2), limit=None, rng=None):
 
 def family_stream(rng, count, big=False):
     """Mixed stream used by C01-C04."""
+    out = _family_stream(rng, count, big)
+    for k, lp in enumerate(out):
+        if k % 3 == 1:
+            lp["order"] = "ROWSFIRST"
+        elif k % 3 == 2:
+            lp["order"] = "MIXED"
+    return out
+
+
+def _family_stream(rng, count, big=False):
     out = []
     i = 0
     while len(out) < count:
@@ -231,6 +255,8 @@ def family_stream(rng, count, big=False):
             out.append(unbounded_lp(rng, hidden=rng.random() < 0.5, name="ub%d" % i))
         elif r == 10:
             out.append(near_parallel(rng, rng.choice([2, 30, 60, 300]), name="np%d" % i))
+        elif i % 24 == 11:
+            out.append(tiny_coef(rng, rng.choice([12, 20, 38, 40, 60, 90]), rng.random() < 0.5, name="tc%d" % i))
         else:
             out.append(rng.choice([lambda r_, name: beale(name), empty_rows_cols])(rng, name="mx%d" % i))
     return out
